@@ -2,6 +2,7 @@ import QuickAdd.Model.Regex
 import QuickAdd.Gen.Classes
 import QuickAdd.Gen.RegexTable
 import QuickAdd.Model.Codec
+import QuickAdd.Model.Search
 /-! Line-protocol driver: one operation per input line, one answer line per operation.
     Texts travel as blank-separated decimal code points (`-` = empty text). -/
 open QuickAdd QuickAdd.Gen
@@ -50,11 +51,55 @@ def opLatent (args : List String) : String :=
     | _, _ => "bad-op"
   | _ => "bad-op"
 
+def cpsOut (l : List Nat) : String := if l.isEmpty then "-" else " ".intercalate (l.map toString)
+
+def opPre (args : List String) : String := cpsOut (preprocess (parseCps args))
+def opLabels (args : List String) : String :=
+  let t := parseCps args
+  "|".intercalate ((getLabels t).map cpsOut) ++ " ## " ++ cpsOut (stripLabels t)
+
+def opTokens (args : List String) : String :=
+  let t := parseCps args
+  " ".intercalate ((matchRegex t).map Art.enc)
+
+def opStack (args : List String) : String :=
+  let t := parseCps args
+  let toks := matchRegex t
+  let (seqs, n) := regexStackIdx t toks 100000
+  s!"{n} " ++ ";".intercalate (seqs.map fun p => " ".intercalate (p.filterMap fun i => toks[i]?.map Art.enc))
+
+def fmtCand (c : Cand Int) : String := c.res.enc ++ "|" ++ ",".intercalate c.trace ++ "|" ++ toString c.score
+
+def opParse (args : List String) : String :=
+  match args with
+  | scS :: tsS :: latS :: depthS :: numS :: denS :: dlS :: rest =>
+    match Ts.dec tsS, depthS.toNat?, numS.toNat?, denS.toNat? with
+    | some ts, some depth, some num, some den =>
+      let sc := if scS == "const" then constScorer else hashScorer
+      let o : Opts := { relMatchLenNum := num, relMatchLenDen := den, depth := depth, latent := latS == "1",
+                        deadline := if dlS == "-" then none else dlS.toNat? }
+      let r := ctparseGen sc ts o (parseCps rest) 200000
+      let best := match bestOf sc.lt r.cands with | some b => fmtCand b | none => "N"
+      ";;".intercalate (r.cands.map fmtCand) ++ " ## " ++ cpsOut r.subject ++ " ## " ++
+        "|".intercalate (r.labels.map cpsOut) ++ " ## " ++ (match r.err with | some e => e.name | none => "-") ++ " ## " ++ best
+    | _, _, _, _ => "bad-op"
+  | _ => "bad-op"
+
+def opNoMatch (args : List String) : String :=
+  let (s, l) := noMatchSubject (parseCps args)
+  cpsOut s ++ " ## " ++ "|".intercalate (l.map cpsOut)
+
 def handle (line : String) : String :=
   match (line.trimAscii.toString.splitOn " ").filter (· ≠ "") with
   | "rx" :: args => opRx args
   | "rule" :: args => opRule args
   | "latent" :: args => opLatent args
+  | "pre" :: args => opPre args
+  | "labels" :: args => opLabels args
+  | "tokens" :: args => opTokens args
+  | "stack" :: args => opStack args
+  | "parse" :: args => opParse args
+  | "nomatch" :: args => opNoMatch args
   | _ => "bad-op"
 
 partial def loop (h : IO.FS.Stream) (out : IO.FS.Stream) : IO Unit := do
